@@ -398,7 +398,7 @@ func TestC05(t *testing.T) {
 		ev.Note("exhaustive-frames", fmt.Sprintf("%d timecodes: every frame number at 25 and 30 fps with three programme-start offsets, through read, write and read+write", n))
 	})
 
-	rapidCheck(t, "C05/read", tier(3000, 200000), func(rt *rapid.T) {
+	rapidCheck(t, "C05/read", tier(3000, 1200000), func(rt *rapid.T) {
 		c := c05ReadCase{Doc: genSTLDoc(rt, false), IgnoreTCP: rapid.Bool().Draw(rt, "ignore")}
 		addRecodes(rt, &c.Doc)
 		addBlankRowsAndComments(rt, &c.Doc)
@@ -415,13 +415,13 @@ func TestC05(t *testing.T) {
 		}
 		verdict(rt, "C05", "c05read", c, checkC05Read)
 	})
-	rapidCheck(t, "C05/cycle", tier(1500, 100000), func(rt *rapid.T) {
+	rapidCheck(t, "C05/cycle", tier(1500, 600000), func(rt *rapid.T) {
 		c := c05CycleCase{Doc: genSTLDoc(rt, true)}
 		nt, ls := c05Labels(c.Doc)
 		ev.Case(nt, fmt.Sprintf("c%v", c), append(ls, "cycle")...)
 		verdict(rt, "C05", "c05cycle", c, checkC05Cycle)
 	})
-	rapidCheck(t, "C05/write", tier(2000, 100000), func(rt *rapid.T) {
+	rapidCheck(t, "C05/write", tier(2000, 600000), func(rt *rapid.T) {
 		avoid := knownActive(kfSTLDollar)
 		c := c05WriteCase{Doc: genSTLDoc(rt, avoid), Meta: rapid.SampledFrom([]string{"stl", "stl", "nil", "inherited"}).Draw(rt, "meta"), Foreign: rapid.IntRange(0, 2).Draw(rt, "foreign") == 0}
 		late := false
